@@ -176,6 +176,71 @@ class _Worker:
             pass
 
 
+def _cvc5_model_consts(text: str) -> dict[str, str]:
+    """Constant values from cvc5's ``(get-model)`` answer: ``(define-fun name () Sort value)`` entries,
+    name -> value s-expression (same shape as the values shipped by the z3 workers)."""
+    consts: dict[str, str] = {}
+    i, n = 0, len(text)
+
+    def skip_atom(j: int) -> int:
+        if text[j] == '"':
+            j += 1
+            while j < n:
+                if text[j] == '"':
+                    if j + 1 < n and text[j + 1] == '"':
+                        j += 2
+                        continue
+                    return j + 1
+                j += 1
+            return n
+        if text[j] == "|":
+            return text.index("|", j + 1) + 1 if "|" in text[j + 1 :] else n
+        while j < n and not text[j].isspace() and text[j] not in "()":
+            j += 1
+        return j
+
+    def skip_sexpr(j: int) -> int:
+        while j < n and text[j].isspace():
+            j += 1
+        if j >= n or text[j] != "(":
+            return skip_atom(j) if j < n else n
+        depth = 0
+        while j < n:
+            c = text[j]
+            if c == "(":
+                depth += 1
+                j += 1
+            elif c == ")":
+                depth -= 1
+                j += 1
+                if depth == 0:
+                    return j
+            elif c in '"|':
+                j = skip_atom(j)
+            else:
+                j += 1
+        return n
+
+    key = "(define-fun "
+    while True:
+        i = text.find(key, i)
+        if i < 0:
+            break
+        j = i + len(key)
+        e = skip_atom(j)
+        name = text[j:e]
+        if name.startswith("|") and name.endswith("|"):
+            name = name[1:-1]
+        a0 = e
+        a1 = skip_sexpr(a0)  # argument list
+        s1 = skip_sexpr(a1)  # sort
+        v1 = skip_sexpr(s1)  # value
+        if text[a0:a1].strip() == "()":
+            consts[name] = text[s1:v1].strip()
+        i = v1
+    return consts
+
+
 def run_cvc5(smt2: str, timeout_s: float) -> tuple[str, str, float]:
     text = smt2
     if "(set-logic" not in text:
@@ -183,11 +248,11 @@ def run_cvc5(smt2: str, timeout_s: float) -> tuple[str, str, float]:
     text = re.sub(r"\(set-info :status [a-z]+\)\n?", "", text)
     t0 = time.time()
     with tempfile.NamedTemporaryFile("w", suffix=".smt2", delete=False, dir=os.environ.get("VERIF_TMP", None)) as fh:
-        fh.write(text)
+        fh.write(text + "\n(get-model)\n")  # answered only after `sat` (an error line otherwise, ignored)
         path = fh.name
     try:
         p = subprocess.run(
-            [CVC5_BIN, "--strings-exp", f"--tlimit={int(timeout_s * 1000)}", path],
+            [CVC5_BIN, "--strings-exp", "--produce-models", f"--tlimit={int(timeout_s * 1000)}", path],
             capture_output=True,
             text=True,
             timeout=timeout_s + 5,
@@ -196,6 +261,10 @@ def run_cvc5(smt2: str, timeout_s: float) -> tuple[str, str, float]:
         res = out[0].strip() if out else "unknown"
         if res not in ("sat", "unsat", "unknown"):
             return "unknown", ((p.stdout or "") + (p.stderr or ""))[:300], time.time() - t0
+        if res == "sat":
+            consts = _cvc5_model_consts("\n".join(out[1:]))
+            if consts:
+                return res, consts, time.time() - t0  # type: ignore[return-value]
         return res, "", time.time() - t0
     except subprocess.TimeoutExpired:
         return "unknown", "timeout", time.time() - t0
@@ -287,6 +356,32 @@ def _goal_under_pc_literals(ob: Obligation) -> Any:
         return ob.goal
 
 
+def syntactically_entailed(pc: list[Any], g: Any) -> bool:
+    """Sound shortcut: the (simplified) goal is a conjunct of the (simplified) path condition, or an
+    and/or combination of such conjuncts.  Saves a solver run on a string-heavy path condition for
+    goals the path condition states literally."""
+    lits: set[int] = set()
+    keep = []
+    for c in pc:
+        sc = z3.simplify(c)
+        for x in sc.children() if z3.is_and(sc) else [sc]:
+            lits.add(x.get_id())
+            keep.append(x)
+
+    def holds(x: Any, depth: int = 0) -> bool:
+        if x.get_id() in lits:
+            return True
+        if depth > 3:
+            return False
+        if z3.is_and(x):
+            return all(holds(c, depth + 1) for c in x.children())
+        if z3.is_or(x):
+            return any(holds(c, depth + 1) for c in x.children())
+        return False
+
+    return holds(g)
+
+
 def discharge(obs: list[Obligation], tier: str = "quick", jobs: int | None = None, both: bool = False) -> list[Verdict]:
     """Decide every obligation.  Phase 1: z3 with a short budget on everything.  Phase 2 (what is
     left): z3 with the full budget and cvc5 --strings-exp side by side; the first definitive answer
@@ -301,6 +396,9 @@ def discharge(obs: list[Obligation], tier: str = "quick", jobs: int | None = Non
         g = z3.simplify(ob.goal)
         if z3.is_true(g) and ob.expect == "unsat":
             verdicts[i] = Verdict(ob, "unsat", "simplify", 0.0)
+            continue
+        if ob.expect == "unsat" and syntactically_entailed(ob.pc, g):
+            verdicts[i] = Verdict(ob, "unsat", "syntactic", 0.0)
             continue
         if ob.expect == "unsat" and z3.is_true(_goal_under_pc_literals(ob)):
             verdicts[i] = Verdict(ob, "unsat", "simplify-pc", 0.0)
@@ -403,8 +501,13 @@ class Model:
             ok = True
             for name, c in _consts_of(t).items():
                 if name not in self.consts:
-                    ok = False
-                    break
+                    # absent from the solver's model = not constrained by the query: any value will do
+                    dflt = {z3.Z3_SEQ_SORT: z3.StringVal(""), z3.Z3_INT_SORT: z3.IntVal(0), z3.Z3_BOOL_SORT: z3.BoolVal(False)}.get(c.sort().kind())
+                    if dflt is None or (c.sort().kind() == z3.Z3_SEQ_SORT and c.sort() != z3.StringSort()):
+                        ok = False
+                        break
+                    subs.append((c, dflt))
+                    continue
                 try:
                     val = z3.parse_smt2_string(f"(declare-const v {c.sort().sexpr()})(assert (= v {self.consts[name]}))")[0].arg(1)
                 except Exception:
